@@ -66,7 +66,7 @@ let parse_cases ic =
 
 let vtype_of = function
   | "u8" -> M.VUnsigned (nat_of_int 1) | "u16" -> M.VUnsigned (nat_of_int 2)
-  | "u32" -> M.VUnsigned (nat_of_int 4) | "u64" | "usize" -> M.VUnsigned (nat_of_int 8)
+  | "u32" | "from1" -> M.VUnsigned (nat_of_int 4) | "u64" | "usize" -> M.VUnsigned (nat_of_int 8)
   | "u128" -> M.VUnsigned (nat_of_int 16) | "user3" -> M.VUnsigned (nat_of_int 3)
   | "i8" -> M.VSigned (nat_of_int 1) | "i16" -> M.VSigned (nat_of_int 2)
   | "i32" -> M.VSigned (nat_of_int 4) | "i64" | "isize" -> M.VSigned (nat_of_int 8)
@@ -75,7 +75,7 @@ let vtype_of = function
 (* size_of::<Output<V>>() on the 64-bit target (printed by the harness too, so a wrong entry
    shows up as a STATS disagreement) *)
 let out_size = function
-  | "u8" | "u16" | "u32" | "i8" | "i16" | "i32" | "user3" -> 12
+  | "u8" | "u16" | "u32" | "i8" | "i16" | "i32" | "user3" | "from1" -> 12
   | "u64" | "i64" | "usize" | "isize" -> 16
   | "u128" | "i128" -> 32
   | "empty" -> 8
@@ -130,6 +130,11 @@ let show_api (r : ((M.nat * M.nat) * M.z) list M.res) =
 
 (* ---- the property text as an oracle: extracted Spec on (patterns, haystack) ---- *)
 let show_triples l = String.concat "" (List.map (fun t -> " " ^ show_triple t) l)
+(* V::try_from(usize) of the case's value type; "from1" is the harness's user type that rejects
+   position 0 (u32 otherwise) *)
+let conv_of (c : case) =
+  let vt = vtype_of c.vt in
+  if c.vt = "from1" then (fun i -> if i = M.O then None else M.vt_conv vt i) else M.vt_conv vt
 let spec_pvs (c : case) : (M.n list * M.z) list option =
   let vt = vtype_of c.vt in
   match c.entry with
@@ -137,7 +142,7 @@ let spec_pvs (c : case) : (M.n list * M.z) list option =
     let rec go i = function
       | [] -> Some []
       | (p, _) :: r ->
-        (match M.vt_conv vt (nat_of_int i), go (i + 1) r with
+        (match conv_of c (nat_of_int i), go (i + 1) r with
          | Some v, Some l -> Some ((nlist p, v) :: l)
          | _ -> None) in
     go 0 c.pats
@@ -145,7 +150,7 @@ let spec_pvs (c : case) : (M.n list * M.z) list option =
 let spec_build (c : case) =
   let ps = List.map (fun (p, _) -> nlist p) c.pats in
   let r = match c.entry with
-    | "build" | "new" -> M.spec_build_error_conv (M.vt_conv (vtype_of c.vt)) ps
+    | "build" | "new" -> M.spec_build_error_conv (conv_of c) ps
     | _ -> M.spec_build_error ps in
   match r with
   | None -> pr "SPECBUILD ok\n"
@@ -253,16 +258,19 @@ let bw_table (a : M.z M.bw_automaton) kind =
           hn := fnv_u32 !hn nx) labels) order;
   pr "TABLE %d %016Lx %016Lx\n" (List.length order) !hc !hn
 
+let kindchk_hays = ref true
 let kindchk kind =
-  if kind = 0 then pr "KINDCHK ok ok ok panic\n" else pr "KINDCHK panic panic panic ok\n"
+  if kind = 0 then pr "KINDCHK ok ok ok panic\n" else pr "KINDCHK panic panic panic ok\n";
+  (* the byte-iterator entry points assert the kind too *)
+  if !kindchk_hays then (if kind = 0 then pr "KINDCHKI ok ok ok\n" else pr "KINDCHKI panic panic panic\n")
 
 let run_bw (c : case) =
   let vt = vtype_of c.vt in
   let kind = kind_of c.kind and nfb = n_of_int c.nfb in
   let r =
     match c.entry with
-    | "build" -> M.bw_build (M.vt_conv vt) kind nfb (List.map (fun (p, _) -> nlist p) c.pats)
-    | "new" -> M.bw_build (M.vt_conv vt) M.Standard (n_of_int 16) (List.map (fun (p, _) -> nlist p) c.pats)
+    | "build" -> M.bw_build (conv_of c) kind nfb (List.map (fun (p, _) -> nlist p) c.pats)
+    | "new" -> M.bw_build (conv_of c) M.Standard (n_of_int 16) (List.map (fun (p, _) -> nlist p) c.pats)
     | "values" -> M.bw_build_with_values kind nfb (List.map (fun (p, v) -> (nlist p, mz_of_z (Z.of_string v))) c.pats)
     | "with_values" -> M.bw_build_with_values M.Standard (n_of_int 16) (List.map (fun (p, v) -> (nlist p, mz_of_z (Z.of_string v))) c.pats)
     | e -> failwith ("unknown entry " ^ e) in
@@ -283,7 +291,7 @@ let run_bw (c : case) =
     bw_cert "M" a c;
     pr "MSAFE %d\n" (if M.bw_safe_b a then 1 else 0);
     if String.contains c.ops 'S' then bw_searches a c "";
-    if String.contains c.ops 'K' then kindchk c.kind;
+    if String.contains c.ops 'K' then (kindchk_hays := (c.hays <> []); kindchk c.kind);
     if String.contains c.ops 'R' then begin
       let src = img @ nlist c.trail in
       match M.bw_deserialize sv src with
@@ -382,8 +390,8 @@ let run_cw (c : case) =
   let cps = List.map (fun (p, _) -> chars p) c.pats in
   let r =
     match c.entry with
-    | "build" -> M.cw_build (M.vt_conv vt) kind nfb cps
-    | "new" -> M.cw_build (M.vt_conv vt) M.Standard (n_of_int 16) cps
+    | "build" -> M.cw_build (conv_of c) kind nfb cps
+    | "new" -> M.cw_build (conv_of c) M.Standard (n_of_int 16) cps
     | "values" -> M.cw_build_with_values kind nfb (List.map2 (fun p (_, v) -> (p, mz_of_z (Z.of_string v))) cps c.pats)
     | "with_values" -> M.cw_build_with_values M.Standard (n_of_int 16) (List.map2 (fun p (_, v) -> (p, mz_of_z (Z.of_string v))) cps c.pats)
     | e -> failwith ("unknown entry " ^ e) in
@@ -416,7 +424,7 @@ let run_cw (c : case) =
          pr "MLCERT %d\n" (if M.cw_lm_cert_ok zeqb a cpvs then 1 else 0));
     pr "MSAFE %d\n" (if M.cw_safe_b a then 1 else 0);
     if String.contains c.ops 'S' then cw_searches a c "";
-    if String.contains c.ops 'K' then kindchk c.kind;
+    if String.contains c.ops 'K' then (kindchk_hays := (c.hays <> []); kindchk c.kind);
     if String.contains c.ops 'R' then begin
       let src = img @ nlist c.trail in
       match M.cw_deserialize sv src with
@@ -539,7 +547,7 @@ let () =
         if not spec_only && not huge then
           (try if c.var = "bw" then run_bw c else run_cw c
            with Stack_overflow -> pr "!stackoverflow\n");
-        (try (if not huge then spec_build c); if String.contains c.ops 'S' then spec_searches c
+        (try (if not huge || List.length c.pats <= 2000 then spec_build c); if String.contains c.ops 'S' then spec_searches c
          with Stack_overflow -> pr "SPEC!stackoverflow\n")
       end;
       pr "END %s\n" c.id;
